@@ -16,6 +16,7 @@ import GeoProofs.Lemmas.C12Closest
 import GeoProofs.Lemmas.C12Interior
 import GeoProofs.Lemmas.C12QScan
 import GeoProofs.Lemmas.C12QSimple
+import GeoProofs.Lemmas.C12QFold
 import Mathlib.Tactic.NormNum
 
 namespace Geo.Proofs.C12
@@ -970,21 +971,20 @@ example : ∃ x w, polyScan (locate (.polygon ⟨[⟨0, 0⟩, ⟨4, 0⟩, ⟨4, 
   interior_strict_simple _ ⟨0, 0⟩ ⟨4, 3⟩ rfl (by decide +kernel)
     ⟨⟨0, 0⟩, by simp, ⟨0, 3⟩, by simp, by norm_num⟩ (by decide +kernel) (by decide +kernel)
 
-/- Full statement: `poly.ints = [] → ringSimple poly.ext = true → getBoundingRect poly.ext = some (mn, mx) → …`
-   (a simple ring cannot lie on one horizontal or vertical line, so the two box hypotheses below follow
-   from `ringSimple`; that 1-dimensional fold-back argument is not formalised here). -/
-/-- [Tp] `interior_strict_ringSimple_partial`: a polygon without holes whose exterior ring is simple
+/-- [T] `interior_strict_ringSimple`: a polygon without holes whose exterior ring is simple
 (`ringSimple`, GeoModel/Valid.lean: closed, ≥ 3 edges after merging repeated coordinates, edges meet
-only at shared vertices of consecutive edges) and whose bounding box has positive width and height:
-the hit abscissae are pairwise distinct, the midpoint of the first two crossings is `Inside`, and the
-model's `interior_point` is `Inside`. -/
-theorem interior_strict_ringSimple_partial (poly : Poly) (mn mx : Pt)
+only at shared vertices of consecutive edges): the bounding box has positive width and height (a
+simple ring does not fold back along a line), the hit abscissae are pairwise distinct, the midpoint
+of the first two crossings is `Inside`, and the model's `interior_point` is `Inside`. No hypothesis
+besides simplicity: for hole-free polygons the existence statement [S] of `interior_strict_partial`
+is proved. -/
+theorem interior_strict_ringSimple (poly : Poly) (mn mx : Pt)
     (hholes : poly.ints = [])
     (hsimple : ringSimple poly.ext = true)
-    (hb : getBoundingRect poly.ext = some (mn, mx))
-    (hx : mn.x < mx.x) (hyy : mn.y < mx.y) :
+    (hb : getBoundingRect poly.ext = some (mn, mx)) :
     ∃ x w, polyScan (locate (.polygon poly)) poly = some (x, w) ∧
       locate (.polygon poly) x = .inside := by
+  obtain ⟨hx, hyy⟩ := bbox_proper_of_simple hsimple hb
   obtain ⟨hbd, _, _, ⟨pl, hpl, hply⟩, ⟨ph, hph, hphy⟩⟩ :=
     Geo.Proofs.C19.getBoundingRect_bounds poly.ext mn mx hb
   have hflat : ∃ c ∈ poly.ext, ∃ c' ∈ poly.ext, c.y ≠ c'.y :=
@@ -1004,8 +1004,29 @@ theorem interior_strict_ringSimple_partial (poly : Poly) (mn mx : Pt)
 example : ∃ x w, polyScan (locate (.polygon ⟨[⟨0, 0⟩, ⟨4, 0⟩, ⟨4, 1⟩, ⟨1, 1⟩, ⟨1, 3⟩, ⟨0, 3⟩, ⟨0, 0⟩], []⟩))
       ⟨[⟨0, 0⟩, ⟨4, 0⟩, ⟨4, 1⟩, ⟨1, 1⟩, ⟨1, 3⟩, ⟨0, 3⟩, ⟨0, 0⟩], []⟩ = some (x, w) ∧
     locate (.polygon ⟨[⟨0, 0⟩, ⟨4, 0⟩, ⟨4, 1⟩, ⟨1, 1⟩, ⟨1, 3⟩, ⟨0, 3⟩, ⟨0, 0⟩], []⟩) x = .inside :=
-  interior_strict_ringSimple_partial _ ⟨0, 0⟩ ⟨4, 3⟩ rfl (by decide +kernel) (by decide +kernel)
-    (by norm_num) (by norm_num)
+  interior_strict_ringSimple _ ⟨0, 0⟩ ⟨4, 3⟩ rfl (by decide +kernel) (by decide +kernel)
+
+/-- [T] the same as a statement about `interior_point` of the `Polygon` variant: for a hole-free
+polygon with a simple exterior ring the model returns a point and that point is `Inside`. -/
+theorem interior_polygon_inside_simple (len : Pt → Pt → Rat) (poly : Poly)
+    (hholes : poly.ints = []) (hsimple : ringSimple poly.ext = true) :
+    ∃ x, interior len (fun q => locate (.polygon q)) (.polygon poly) = some x ∧
+      locate (.polygon poly) x = .inside := by
+  cases hb : getBoundingRect poly.ext with
+  | none =>
+    exfalso
+    rw [getBoundingRect_eq_none] at hb
+    have := (ringSimple_spec hsimple).2.1
+    rw [hb] at this
+    simp [dedupConsecutive, segs] at this
+  | some r =>
+    obtain ⟨mn, mx⟩ := r
+    obtain ⟨x, w, hs, hi⟩ := interior_strict_ringSimple poly mn mx hholes hsimple hb
+    exact ⟨x, by simp [interior, polyInterior, hs], hi⟩
+
+example : interior (fun _ _ => 1) (fun q => locate (.polygon q))
+    (.polygon ⟨[⟨0, 0⟩, ⟨4, 0⟩, ⟨4, 1⟩, ⟨1, 1⟩, ⟨1, 3⟩, ⟨0, 3⟩, ⟨0, 0⟩], []⟩) = some ⟨1 / 2, 3 / 2⟩ := by
+  decide +kernel
 
 /-! ### GeometryCollection: a member of the highest dimension present -/
 
